@@ -128,3 +128,16 @@ PROPS["C19"] = dict(
     level_text="All single damages of the catalogue are enumerated for every generated file (exhaustive over the catalogue, sampled over files and over damage pairs).",
     level_note="Trusted base: pyref/pdfgen.py for the intact files; the library's own intact reading is the comparison baseline.",
 )
+
+PROPS["C06"] = dict(
+    title="Encrypted files interoperate with an independent implementation",
+    level="exploration",
+    technique="differential monitor against an independent implementation of the standard security handler (pyref.crypto, itself required on every setup to decrypt the repository's 16 qpdf-encrypted fixtures with both passwords): documents encrypted by the reference must read back, after unlock with either password, as their plaintext objects (canonical value comparison of every object, stream data by hash); each difference is classified (left as ciphertext / decrypted once too often / decryption error / password refused) so that known gaps are keyed exactly; direction B (library encrypts, reference decrypts) runs on C05's files",
+    stages=[py("pyref.checks.c06", args={"phase": "gen"}), rust(id="OBS", args={"dir": "{out}/cases"}), py("pyref.checks.c06", args={"phase": "check"})],
+    rule="plaintext document (strings in Info incl. non-ASCII bytes and nesting, annotation strings, content/XMP/binary streams with strings in stream dictionaries) x {RC4-40 R2, RC4-128 R3, RC4 V4, AES-128 R4, AES-256 R6} x EncryptMetadata on/off x {classic, object streams + xref stream} x Identity crypt-filter stream x password classes {empty, ASCII, symbols, Latin-1, 40 bytes, BMP, astral} x {user, owner, wrong password}. Non-trivial: object-stream layout, or EncryptMetadata false, or a non-ASCII password; distinct by (case, password role)",
+    assumptions=["the reference encryptor/decryptor is anchored to real qpdf output through the fixtures self-test (same algorithms, other direction) and must round-trip each generated file itself before the library is judged",
+                 "passwords that PDFDocEncoding cannot represent are not used with R<=4 (no defined behaviour)"],
+    floors={"quick": {"evaluations": 600, "distinct": 300, "counters": {"observations": 1000}}, "thorough": {"evaluations": 20000, "distinct": 10000}},
+    level_text="Sampled configurations with an exact per-object oracle; the evidence lists the (mode x layout x EncryptMetadata x password class) cells exercised.",
+    level_note="Trusted base: pyref/crypto.py (FIPS-197 / RFC 6229 vectors, OpenSSL cross-check, qpdf fixtures), pyref/pdfgen.py. qpdf itself is not installed.",
+)
